@@ -16,7 +16,13 @@ Projection compared with the spec after every action:
   mode     ResultSet._list_mode
   lh       the list iterator iter(rs) returned in list mode
   yielded  rows next() returned since the last iter(rs)
+  cb       the callback consumer: registered?, does the node owe an answer, rows / number of calls the real callback
+           received through future.add_callbacks, did it see has_more_pages False
 and the value / exception of the operation itself (act.out).
+
+Callback-chained consumer (ExecAsync / AddCallback / Deliver): the statement text carries `hold`, the node then keeps the
+request in `pending` and answers it when the schedule says Deliver, so the documented handle_page callback
+(consume rows; if future.has_more_pages: future.start_fetching_next_page()) runs inside the completion of each page.
 """
 import copy
 import re
@@ -28,10 +34,10 @@ from cassandra.cluster import ExecutionProfile, EXEC_PROFILE_DEFAULT
 from cassandra.policies import RoundRobinPolicy
 from cassandra.query import SimpleStatement, tuple_factory
 
-VARS = ("reqs", "served", "ps", "cur", "it", "mode", "lh", "yielded")
+VARS = ("reqs", "served", "ps", "cur", "it", "mode", "lh", "yielded", "cb")
 READS = ("current_rows", "one", "has_more_pages", "paging_state")
 FETCH_SIZE = 2
-_LAYOUT = re.compile(r"/\* layout=([0-9,]+) run=(\d+) \*/")
+_LAYOUT = re.compile(r"/\* layout=([0-9,]+) run=(\d+)( hold)? \*/")
 
 
 def tok_bytes(p):
@@ -85,11 +91,13 @@ class Env:
                 pass
             cls.current = None
 
-    def answer(self, node, p):
+    def answer(self, node, p, force=False):
         """The stateless paging node of the specification: token t -> page t+1."""
         m = _LAYOUT.search(p.req.get("query", "")) if p.req.get("op") == "QUERY" else None
         if m is None:
             return FakeNode.default_answer(node, p)
+        if m.group(3) and not force:
+            return None                                     # callback consumer: answered by the schedule (Deliver)
         layout = [int(x) for x in m.group(1).split(",")]
         self.answers += 1
         if self.answers > self.limit:                      # a client that never stops asking
@@ -104,7 +112,15 @@ class Env:
         node.respond_rows(p, [("a", wire.T_INT)], rows,
                           paging_state=tok_bytes(page) if page < len(layout) else None)
 
+    def deliver(self):
+        """Answer the oldest held request."""
+        held = [p for p in self.node.pending if _LAYOUT.search(p.req.get("query", ""))]
+        if not held:
+            raise AssertionError("the node owes no answer")
+        self.answer(self.node, held[0], force=True)
+
     def begin(self, layout):
+        del self.node.pending[:]
         self.run += 1
         self.served = []
         self.answers = 0
@@ -124,6 +140,34 @@ class PagingHarness:
         self.h = None            # iterator held by the consumer
         self.lh = None           # ... when it is the list iterator handed out in list mode
         self.yielded = []
+        self.cb_on = False
+        self.cb_rows, self.cb_calls, self.cb_done, self.cb_errors = [], 0, False, []
+
+    # ------------------------------------------------------------ the documented PagedResultHandler
+    def handle_page(self, rows):
+        self.cb_calls += 1
+        self.cb_rows += [r[0] for r in rows]
+        if self.fut.has_more_pages:
+            self.fut.start_fetching_next_page()
+        else:
+            self.cb_done = True
+
+    def handle_error(self, exc):
+        self.cb_errors.append(type(exc).__name__)
+
+    def act_ExecAsync(self, arg):
+        self.query = self.query.replace(" */", " hold */")
+        self.fut = self.env.session.execute_async(SimpleStatement(self.query, fetch_size=FETCH_SIZE))
+        return ()
+
+    def act_AddCallback(self, arg):
+        self.cb_on = True
+        self.fut.add_callbacks(callback=self.handle_page, errback=self.handle_error)
+        return ()
+
+    def act_Deliver(self, arg):
+        self.env.deliver()
+        return ()
 
     # ------------------------------------------------------------ actions: return the spec's `out`
     def do(self, act):
@@ -132,6 +176,8 @@ class PagingHarness:
             return tuple(getattr(self, "act_" + name)(act.get("arg", 0)))
         except StopIteration:
             return ()
+        except AssertionError as ex:
+            return ("refused:%s" % ex,)
         except IndexError:
             return (-2,)
         except RuntimeError as ex:
@@ -191,8 +237,13 @@ class PagingHarness:
         reqs = tuple(tok_num(r.get("paging_state")) for _, r in env.node.received
                      if r.get("op") == "QUERY" and r.get("query") == self.query)
         out = {"reqs": reqs, "served": tuple(env.served)}
+        owed = any(p.req.get("query") == self.query for p in env.node.pending)
+        out["cb"] = {"st": "off" if self.fut is None or self.rs is not None else ("on" if self.cb_on else "sent"),
+                     "owed": owed, "rows": tuple(self.cb_rows) if not self.cb_errors else ("errback",) + tuple(self.cb_errors),
+                     "calls": self.cb_calls, "done": self.cb_done}
         if self.rs is None:
-            out.update(ps=0, cur=(), it={"set": False, "rest": ()}, mode="paged", lh={"set": False, "rest": ()},
+            out.update(ps=tok_num(self.fut._paging_state) if self.fut is not None else 0,
+                       cur=None, it={"set": False, "rest": ()}, mode="paged", lh={"set": False, "rest": ()},
                        yielded=(), reads=None)
             return out
         rs, fut = self.rs, self.fut
@@ -213,7 +264,10 @@ def spec_view(state):
     def itv(v):
         return {"set": v["set"], "rest": tuple(v["rest"])}
     cur = tuple(state["cur"])
-    sv = {"reqs": tuple(state["reqs"]), "served": tuple(state["served"]), "ps": state["ps"], "cur": cur,
+    c = state["cb"]
+    sv = {"reqs": tuple(state["reqs"]), "served": tuple(state["served"]), "ps": state["ps"],
+          "cur": cur if state["started"] else None,      # before / without a ResultSet there is no _current_rows
+          "cb": {"st": c["st"], "owed": c["owed"], "rows": tuple(c["rows"]), "calls": c["calls"], "done": c["done"]},
           "it": itv(state["it"]), "mode": state["mode"], "lh": itv(state["lh"]), "yielded": tuple(state["yielded"])}
     # the spec's pure reads: HasMore == ps # 0, One == first row of cur, current_rows == cur
     sv["reads"] = {"current_rows": cur, "one": cur[:1], "has_more_pages": state["ps"] != 0,
@@ -291,7 +345,8 @@ def cover_walks(nodes, edges, init, max_len=60):
 
 # ---------------------------------------------------------------------- recording (code -> spec)
 def _post(p):
-    return {"reqs": list(p["reqs"]), "served": list(p["served"]), "ps": p["ps"], "cur": list(p["cur"]),
+    return {"reqs": list(p["reqs"]), "served": list(p["served"]), "ps": p["ps"], "cur": list(p["cur"] or ()),
+            "cb": dict(p["cb"], rows=list(p["cb"]["rows"])),
             "it": {"set": p["it"]["set"], "rest": list(p["it"]["rest"])}, "mode": p["mode"],
             "lh": {"set": p["lh"]["set"], "rest": list(p["lh"]["rest"])}, "yielded": list(p["yielded"])}
 
@@ -302,20 +357,26 @@ def trace_of_states(states):
     for s in states[1:]:
         sv = spec_view(s)
         act = s["act"]
-        ev = {"e": act["name"], "arg": act["arg"], "out": list(act["out"]), "post": _post(sv),
-              "reads": {"cur": list(sv["reads"]["current_rows"]), "one": list(sv["reads"]["one"]),
-                        "more": sv["reads"]["has_more_pages"], "ps": sv["reads"]["paging_state"]}}
-        if act["name"] == "Execute":
+        ev = {"e": act["name"], "arg": act["arg"], "out": list(act["out"]), "post": _post(sv)}
+        if sv["reads"] is not None:
+            ev["reads"] = {"cur": list(sv["reads"]["current_rows"]), "one": list(sv["reads"]["one"]),
+                           "more": sv["reads"]["has_more_pages"], "ps": sv["reads"]["paging_state"]}
+        if act["name"] in ("Execute", "ExecAsync"):
             ev["layout"] = list(s["layout"])
         events.append(ev)
     return events
 
 
-PROGRAMS = ("iterate", "list", "manual", "index", "eq", "iter_then_list", "manual_then_iter", "index_then_iter", "random")
+PROGRAMS = ("iterate", "list", "manual", "index", "eq", "iter_then_list", "manual_then_iter", "index_then_iter", "random",
+            "callback_early", "callback_late")
 
 
 def program(kind, rng, total, npages):
     """A consumer program (list of (op, arg)) of the given kind."""
+    if kind == "callback_early":
+        return [("ExecAsync", 0), ("AddCallback", 0)] + [("Deliver", 0)] * (npages + 1)
+    if kind == "callback_late":
+        return [("ExecAsync", 0), ("Deliver", 0), ("AddCallback", 0)] + [("Deliver", 0)] * npages
     if kind == "iterate":
         return [("Iter", 0)] + [("Next", 0)] * (total + 1)
     if kind == "list":
@@ -346,14 +407,18 @@ def record(rng, max_pages=6, max_rows=3, kind=None, layout=None):
     kind = kind or rng.choice(PROGRAMS)
     h = PagingHarness(layout)
     events = []
-    prog = [("Execute", 0)] + program(kind, rng, sum(layout), len(layout))
+    prog = program(kind, rng, sum(layout), len(layout))
+    if not kind.startswith("callback"):
+        prog = [("Execute", 0)] + prog
     for op, arg in prog:
         if op == "Next" and h.h is None:
             continue                                   # no iterator obtained yet
+        if op == "Deliver" and not h.project()["cb"]["owed"]:
+            continue                                   # the node owes nothing
         if op == "Fetch" and h.rs is not None and h.rs._list_mode:
             continue                                   # outside the specification's scope (see Fetch in Paging.tla)
         ev = {"e": op, "arg": arg}
-        if op == "Execute":
+        if op in ("Execute", "ExecAsync"):
             ev["layout"] = list(layout)
         out = h.do({"name": op, "arg": arg})
         if any(isinstance(x, str) for x in out):
@@ -362,7 +427,8 @@ def record(rng, max_pages=6, max_rows=3, kind=None, layout=None):
         ev["out"] = list(out)
         p = h.project()
         ev["post"] = _post(p)
-        ev["reads"] = {"cur": list(p["reads"]["current_rows"]), "one": list(p["reads"]["one"]),
-                       "more": p["reads"]["has_more_pages"], "ps": p["reads"]["paging_state"]}
+        if p["reads"] is not None:
+            ev["reads"] = {"cur": list(p["reads"]["current_rows"]), "one": list(p["reads"]["one"]),
+                           "more": p["reads"]["has_more_pages"], "ps": p["reads"]["paging_state"]}
         events.append(ev)
     return kind, events
